@@ -55,7 +55,9 @@ pub mod btree_map {
                 if keep { i += 1 } else { self.remove_at(i); }
             }
         }
-        pub fn iter(&self) -> impl Iterator<Item = (&K, &V)> + '_ { self.slots[..self.n].iter().map(|s| { let (k, v) = s.as_ref().unwrap(); (k, v) }) }
+        pub fn iter(&self) -> impl DoubleEndedIterator<Item = (&K, &V)> + '_ { self.slots[..self.n].iter().map(|s| { let (k, v) = s.as_ref().unwrap(); (k, v) }) }
+        pub fn iter_mut(&mut self) -> impl DoubleEndedIterator<Item = (&K, &mut V)> + '_ { let n = self.n; self.slots[..n].iter_mut().map(|s| { let (k, v) = s.as_mut().unwrap(); (&*k, v) }) }
+        pub fn values_mut(&mut self) -> impl DoubleEndedIterator<Item = &mut V> + '_ { self.iter_mut().map(|(_, v)| v) }
         pub fn keys(&self) -> impl Iterator<Item = &K> + '_ { self.iter().map(|(k, _)| k) }
         pub fn values(&self) -> impl Iterator<Item = &V> + '_ { self.iter().map(|(_, v)| v) }
     }
